@@ -298,6 +298,18 @@ def build(env, spec):
         met = e
     if spec.get('lmis') and spec.get('lmi_metric', True):
         met = m.exprs['t0']
+    if spec.get('null_accumulate'):
+        # the accumulation idiom of the library itself (block_partition.py): start from the exported module-level zero and
+        # add terms with += (on an immutable-value type `total += term` rebinds `total`, the shared zero is not touched)
+        from PEPit import null_expression, null_point
+        total = null_expression
+        total += met
+        total += e
+        total -= e
+        met = total
+        acc = null_point
+        acc += x0
+        acc -= x0
     pep.set_performance_metric(met)
     m.metrics.append(met)
     if spec.get('metrics', 1) >= 2:
